@@ -607,6 +607,51 @@ func valueFor(t *rapid.T, l string, vp svc.ValuePredicate, want bool, size int) 
 	return out
 }
 
+// dynUintValue encodes a value for a dynamic reference under an integer
+// predicate in one of the widths a contract may emit besides one word (the
+// reference semantics read the whole byte string as a big-endian number):
+//   - wide:  33+ bytes, low + k*2^256, where the low 256 bits alone would
+//     decide the predicate the other way than the full number does;
+//   - leading-zeros: the aimed number with 1..40 leading zero bytes;
+//   - minimal: its minimal big-endian encoding (empty for zero).
+//
+// It returns nil, "" when the ordinary one-word value should be used.
+func dynUintValue(t *rapid.T, l string, vp svc.ValuePredicate, want bool, aimed []byte) ([]byte, string) {
+	lowSatisfies := func(low *big.Int) bool { return refPredicate(vp, word(low)) }
+	switch rapid.IntRange(0, 7).Draw(t, l+"dynShape") {
+	case 0, 1, 6, 7:
+		// the full number is >= 2^256: it satisfies Gt/Gte of any one-word argument and nothing else
+		fullSatisfies := vp.Op == svc.UintGt || vp.Op == svc.UintGte
+		if fullSatisfies != want {
+			return nil, ""
+		}
+		// low bits deciding the other way
+		arg := vp.IntArgs[0]
+		var low *big.Int
+		for _, c := range []*big.Int{new(big.Int), big.NewInt(5), new(big.Int).Set(arg), new(big.Int).Sub(arg, big.NewInt(1)), new(big.Int).Add(arg, big.NewInt(1))} {
+			if c.Sign() >= 0 && c.Cmp(two256) < 0 && lowSatisfies(c) != want {
+				low = c
+				break
+			}
+		}
+		if low == nil {
+			return nil, ""
+		}
+		k := int64(rapid.IntRange(1, 3).Draw(t, l+"k"))
+		full := new(big.Int).Add(low, new(big.Int).Mul(big.NewInt(k), two256))
+		b := full.Bytes()
+		if pad := rapid.IntRange(0, 2).Draw(t, l+"widePad"); pad > 0 {
+			b = append(make([]byte, pad), b...)
+		}
+		return b, "dynamic-uint-value:wider-than-a-word(low-256-bits-decide-differently)"
+	case 2:
+		return append(make([]byte, rapid.IntRange(1, 40).Draw(t, l+"lz")), aimed...), "dynamic-uint-value:leading-zero-bytes"
+	case 3:
+		return new(big.Int).SetBytes(aimed).Bytes(), "dynamic-uint-value:minimal-encoding"
+	}
+	return nil, ""
+}
+
 // genLogFor builds a log that is well formed for d (every reference points
 // inside the log: four topics, all head words present, dynamic values laid out
 // as the ABI does), aiming at a match (want) or at a near miss that still
@@ -676,7 +721,8 @@ func truncatedWord(t *rapid.T, l string, vp svc.ValuePredicate, want bool) ([]by
 // genLogForInfo is genLogFor and additionally reports whether the log's data
 // ends inside the highest statically referenced data word ("" = no; else
 // "cut" or "cut+decides" when the padded word and a zero word give different
-// verdicts for the predicate on that word).
+// verdicts for the predicate on that word), followed by "|<shape>" for every
+// dynamic integer value encoded otherwise than as one word.
 func genLogForInfo(t *rapid.T, l string, d *svc.EventTriggerDefinition, want bool) (fakechain.LogSpec, string) {
 	lg := fakechain.LogSpec{Address: d.Contract}
 	if !want && (len(d.LogPredicates) == 0 || rapid.IntRange(0, 5).Draw(t, l+"otherAddr") == 0) {
@@ -698,6 +744,7 @@ func genLogForInfo(t *rapid.T, l string, d *svc.EventTriggerDefinition, want boo
 		head[i] = u64word(uint64(rapid.IntRange(0, 5).Draw(t, fmt.Sprintf("%shead%d", l, i))))
 	}
 	var tail []byte
+	var shapes []string // encodings of dynamic integer values other than one word
 	// which predicate is violated for a near miss (prefer a non-filter predicate)
 	miss := -1
 	if !want && len(d.LogPredicates) > 0 {
@@ -707,7 +754,16 @@ func genLogForInfo(t *rapid.T, l string, d *svc.EventTriggerDefinition, want boo
 				nonFilter = append(nonFilter, i)
 			}
 		}
-		if len(nonFilter) > 0 && rapid.IntRange(0, 3).Draw(t, l+"missNonFilter") > 0 {
+		var dynUint []int
+		for i, p := range d.LogPredicates {
+			if p.LogValueRef.Dynamic && p.ValuePredicate.Op != svc.BytesEq {
+				dynUint = append(dynUint, i)
+			}
+		}
+		if len(dynUint) > 0 && rapid.Bool().Draw(t, l+"missDynUint") {
+			// near miss on a dynamic integer value (other widths than one word are aimed at it)
+			miss = rapid.SampledFrom(dynUint).Draw(t, l+"missDynIdx")
+		} else if len(nonFilter) > 0 && rapid.IntRange(0, 3).Draw(t, l+"missNonFilter") > 0 {
 			miss = rapid.SampledFrom(nonFilter).Draw(t, l+"missIdx")
 		} else {
 			miss = rapid.IntRange(0, len(d.LogPredicates)-1).Draw(t, l+"missAny")
@@ -740,6 +796,12 @@ func genLogForInfo(t *rapid.T, l string, d *svc.EventTriggerDefinition, want boo
 			head[o-4] = valueFor(t, pl, p.ValuePredicate, w, 32)
 		default:
 			v := valueFor(t, pl, p.ValuePredicate, w, 0)
+			if p.ValuePredicate.Op != svc.BytesEq {
+				if dv, shape := dynUintValue(t, pl, p.ValuePredicate, w, v); shape != "" {
+					v = dv
+					shapes = append(shapes, shape)
+				}
+			}
 			ioib := uint64(maxHead*32 + len(tail))
 			head[o-4] = u64word(ioib)
 			tail = append(tail, u64word(uint64(len(v)))...)
@@ -781,6 +843,9 @@ func genLogForInfo(t *rapid.T, l string, d *svc.EventTriggerDefinition, want boo
 	lg.Data = append(lg.Data, tail...)
 	if cutAt >= 0 {
 		lg.Data = lg.Data[:cutAt]
+	}
+	for _, sh := range shapes {
+		info += "|" + sh
 	}
 	return lg, info
 }
